@@ -139,15 +139,17 @@ Theorem two_sew3_topology E n ks l r c w cnt w1 cnt1 :
   exists w2, run E (two_link_core l r) c w cnt = (Done tt, w2, cnt) /\ topo_eq w2 w1.
 Proof.
   intros Hr. unfold two_sew3 in Hr. pose proof (topo_eq_refl w) as T.
-  peel3 Hr T. peel3 Hr T. peel3 Hr T. peel3 Hr T. destruct (x =? 0), (x0 =? 0).
-  - eapply core_then_data; [apply two_link_core_topo| |exact T|exact Hr]. tail_wi3.
+  peel3 Hr T. peel3 Hr T. destruct (x =? 0), (x0 =? 0).
   - peel3 Hr T. peel3 Hr T.
     eapply core_then_data; [apply two_link_core_topo| |exact T|exact Hr]. tail_wi3.
-  - peel3 Hr T. peel3 Hr T.
+  - peel3 Hr T. peel3 Hr T. peel3 Hr T. peel3 Hr T.
     eapply core_then_data; [apply two_link_core_topo| |exact T|exact Hr]. tail_wi3.
-  - peel3 Hr T. peel3 Hr T. peel3 Hr T. peel3 Hr T. peel3 Hr T. peel3 Hr T. peel3 Hr T. peel3 Hr T.
+  - peel3 Hr T. peel3 Hr T. peel3 Hr T. peel3 Hr T.
+    eapply core_then_data; [apply two_link_core_topo| |exact T|exact Hr]. tail_wi3.
+  - peel3 Hr T. peel3 Hr T. peel3 Hr T. peel3 Hr T. peel3 Hr T. peel3 Hr T. peel3 Hr T. peel3 Hr T. peel3 Hr T. peel3 Hr T.
     apply peel_data in Hr.
-    2:{ destruct x7 as [a|], x8 as [b|], x9 as [c0|], x10 as [d|]; try exact I. destruct (bad_orient a b c0 d); exact I. }
+    2:{ repeat match goal with x : option V |- _ => destruct x end; try exact I.
+        match goal with |- writes_in _ (if ?b then _ else _) => destruct b end; exact I. }
     destruct Hr as (xz & wz & cz & Tz & Hr). cbv beta in Hr.
     pose proof (topo_eq_trans _ _ _ T Tz) as T'.
     eapply core_then_data; [apply two_link_core_topo| |exact T'|exact Hr]. tail_wi3.
@@ -158,11 +160,11 @@ Theorem two_unsew3_topology E n ks l c w cnt w1 cnt1 :
   exists w2, run E (two_unlink_core l) c w cnt = (Done tt, w2, cnt) /\ topo_eq w2 w1.
 Proof.
   intros Hr. unfold two_unsew3 in Hr. pose proof (topo_eq_refl w) as T.
-  peel3 Hr T. peel3 Hr T. peel3 Hr T. peel3 Hr T. destruct (x0 =? 0), (x1 =? 0).
-  - eapply core_then_data; [apply two_unlink_core_topo| |exact T|exact Hr]. tail_wi3.
-  - peel3 Hr T. eapply core_then_data; [apply two_unlink_core_topo| |exact T|exact Hr]. tail_wi3.
+  peel3 Hr T. peel3 Hr T. peel3 Hr T. destruct (x0 =? 0), (x1 =? 0).
   - peel3 Hr T. eapply core_then_data; [apply two_unlink_core_topo| |exact T|exact Hr]. tail_wi3.
   - peel3 Hr T. peel3 Hr T. eapply core_then_data; [apply two_unlink_core_topo| |exact T|exact Hr]. tail_wi3.
+  - peel3 Hr T. peel3 Hr T. eapply core_then_data; [apply two_unlink_core_topo| |exact T|exact Hr]. tail_wi3.
+  - peel3 Hr T. peel3 Hr T. peel3 Hr T. eapply core_then_data; [apply two_unlink_core_topo| |exact T|exact Hr]. tail_wi3.
 Qed.
 
 Theorem three_sew3_topology E n ks l r c w cnt w1 cnt1 :
